@@ -38,6 +38,12 @@ CLAIMED = {
     'C06': ('DESIGN.md 4 C06', E1,
             'Clause-by-clause listener contract and cache effect of one response datagram after <= 2 prior datagrams, for all TTLs / instants / gaps; CONFIRMED obligations are exhausted path trees.',
             'Trusted: as C05. Datagrams are built as DNSIncoming objects directly (codec covered by C01/C02).'),
+    'C13': ('DESIGN.md 4 C13', E1,
+            'Known answers attached by generate_service_query and ServiceInfo._generate_request_query are exactly the matching records with more than half their TTL left (ages / TTLs symbolic), stamped with the query instant; _write_ttl writes floor(remaining seconds) for all created / ttl / now; duplicate-question suppression between two askers (own query or question heard as responder) decided for every gap 0..2500 ms and known-answer relation.',
+            'Trusted: as C05; caches of <= 4 records. QU-then-QM of browsers is decided in C10, the lookup schedule in C18, TC splitting in C14.'),
+    'C18': ('DESIGN.md 4 C18', E1,
+            'Return instant, result, fields, no transmission when the cache suffices, QU-then-QM, omitted questions and query spacing of the real async_request coroutine for every timeout, every age / TTL of pre-cached records and every arrival offset / TTL of later records, over enumerated cache contents and arrival orders.',
+            'Trusted: as C05. Timeout range 200..1000 ms when records are cached or arrive (200..10000 ms otherwise) to keep path trees exhaustible.'),
     'C20': ('DESIGN.md 4 C20', E1,
             'Equality / hash-input congruence of all record kinds and questions with type, class word, TTL, created, SRV numbers and scope id as independent solver integers; names and rdata strings from enumerated spellings.',
             'Trusted: CrossHair models of int/tuple equality, z3. Strings are not symbolic.'),
